@@ -9,6 +9,8 @@ import (
 	"github.com/wokdav/gopki/generator"
 	"github.com/wokdav/gopki/generator/cert"
 	"github.com/wokdav/gopki/generator/config"
+	"github.com/wokdav/gopki/generator/db"
+	"github.com/wokdav/gopki/generator/db/filesystem"
 
 	"verif/mc/drive"
 	"verif/mc/engine"
@@ -52,6 +54,24 @@ func c05Enumerate(tier string, yield func(any)) {
 				if refx509.SigFamily(refx509.SigAlgByName[b]) == c05Family(k) {
 					yield(&c05Case{Role: "resign", KeyAlg: k, SigAlg: a, Second: b})
 				}
+			}
+		}
+	}
+	// one database object, an entity that names a profile, configured a second time in the same process (db.AddAndSign
+	// with overwrite; and a plan that is not carried out, PutConfig with another key algorithm, plan, BulkUpdate)
+	for _, k := range []string{"P-256", "RSA-1024"} {
+		for _, a := range refx509.SigAlgNames {
+			for _, b := range refx509.SigAlgNames {
+				if a != b && refx509.SigFamily(refx509.SigAlgByName[a]) == c05Family(k) && refx509.SigFamily(refx509.SigAlgByName[b]) == c05Family(k) {
+					yield(&c05Case{Role: "reconfig", KeyAlg: k, SigAlg: a, Second: b})
+				}
+			}
+		}
+	}
+	for _, a := range []string{"P-224", "P-256", "P-384", "brainpoolP256r1", "brainpoolP256t1", "RSA-1024"} {
+		for _, b := range []string{"P-224", "P-256", "P-384", "brainpoolP256r1", "brainpoolP256t1", "RSA-1024"} {
+			if a != b {
+				yield(&c05Case{Role: "replan", KeyAlg: a, Second: b})
 			}
 		}
 	}
@@ -188,6 +208,129 @@ func c05Rekey(x *engine.Ctx, c *c05Case) {
 	x.Outcome("rekeyed")
 }
 
+// c05Reconfig: library interface, one database object. "ent" names a profile (which contributes one extension).
+// reconfig: the entity is signed with SigAlg, then its configuration is given again with Second and signed with
+// overwrite - the certificate names Second. replan: the entity (no artifact yet) is planned under KeyAlg, the plan
+// is dropped, the configuration is put again with key algorithm Second, planned and generated - key, SPKI and the
+// default signature algorithm are those of Second.
+func c05Reconfig(x *engine.Ctx, c *c05Case) {
+	d := &Dir{Profiles: []*refcfg.ProfileCfg{{Path: "prof.yaml", Name: "p", Exts: []refcfg.Ext{{Kind: refcfg.KOCSP}}}},
+		Certs: []*refcfg.CertCfg{{Path: "ent.yaml", Subject: "CN=reconfigured", KeyAlg: c.KeyAlg, SigAlg: c.SigAlg, Profile: "p"}}}
+	w := simfs.New(simfs.TickPerWrite)
+	d.Render(w)
+	if c.Role == "reconfig" {
+		w.Put("ent.pem", FixtureKeyPEM(FixtureForAlg(c.KeyAlg, 0)))
+	}
+	fsdb := filesystem.NewFilesystemDatabase(w)
+	w.BeginRun(nil)
+	if err := fsdb.Open(); err != nil {
+		x.Violation("C05/"+c.Role+"/open-failed", err.Error())
+		return
+	}
+	defer fsdb.Close()
+	x.Nontrivial(fmt.Sprintf("%s %s %s %s", c.Role, c.KeyAlg, c.SigAlg, c.Second))
+	cfg, err := fsdb.GetConfig("ent")
+	if err != nil || cfg == nil {
+		x.Violation("C05/"+c.Role+"/no-config", fmt.Sprint(err))
+		return
+	}
+	var panicked string
+	guard := func(f func()) {
+		defer func() {
+			if r := recover(); r != nil {
+				panicked = fmt.Sprint(r)
+			}
+		}()
+		f()
+	}
+	check := func(step int, wantKey, wantSig string) bool {
+		a := ReadArtifact(w, "ent.yaml")
+		if a.Cert == nil || a.Key == nil {
+			x.Violation(fmt.Sprintf("C05/%s/no-certificate step=%d", c.Role, step), fmt.Sprintf("certificate=%v key=%v (%v)", a.Cert != nil, a.Key != nil, a.CertErr))
+			return false
+		}
+		want := refx509.SigAlgByName[wantSig]
+		if a.Cert.OuterSig.OID != want || a.Cert.InnerSig.OID != want {
+			x.Violation(fmt.Sprintf("C05/%s/signature-identifier step=%d", c.Role, step), fmt.Sprintf("the configuration in force names %s (%s); the certificate has tbsCertificate.signature %s and signatureAlgorithm %s (configured before: %s)", wantSig, want, a.Cert.InnerSig.OID, a.Cert.OuterSig.OID, c.SigAlg))
+		}
+		if a.Key.Describe() != wantKey {
+			x.Violation(fmt.Sprintf("C05/%s/key-algorithm step=%d", c.Role, step), fmt.Sprintf("the configuration in force names key algorithm %s, the stored key is %s (configured before: %s)", wantKey, a.Key.Describe(), c.KeyAlg))
+		}
+		if pk, err := a.Cert.PublicKey(); err != nil || !a.Key.SamePublic(pk) {
+			x.Violation(fmt.Sprintf("C05/%s/spki-is-not-the-stored-key step=%d", c.Role, step), fmt.Sprint(err))
+		}
+		if err := a.Cert.VerifyUnder(a.Cert); err != nil {
+			x.Violation(fmt.Sprintf("C05/%s/does-not-verify step=%d", c.Role, step), err.Error())
+		}
+		return true
+	}
+	sigIdx := func(name string) cert.SignatureAlgorithm {
+		for i, n := range refx509.SigAlgNames {
+			if n == name {
+				return cert.SignatureAlgorithm(i)
+			}
+		}
+		return 0
+	}
+	if c.Role == "reconfig" {
+		var err1, err2 error
+		guard(func() { _, err1 = db.AddAndSign(fsdb, *cfg, true) })
+		x.Transition(1)
+		if panicked != "" || err1 != nil {
+			x.Violation("C05/reconfig/first-signing-failed", fmt.Sprintf("%v %s", err1, panicked))
+			return
+		}
+		if !check(1, c.KeyAlg, c.SigAlg) {
+			return
+		}
+		nc := *cfg
+		nc.SignatureAlgorithm = sigIdx(c.Second)
+		guard(func() { _, err2 = db.AddAndSign(fsdb, nc, true) })
+		x.Transition(1)
+		if panicked != "" || err2 != nil {
+			x.Violation("C05/reconfig/second-signing-failed", fmt.Sprintf("%v %s", err2, panicked))
+			return
+		}
+		check(2, c.KeyAlg, c.Second)
+		x.Outcome("reconfigured")
+		return
+	}
+	// replan
+	var perr error
+	guard(func() { _, perr = db.PlanBulkUpdate(fsdb, db.UpdateMissing) })
+	if panicked != "" || perr != nil {
+		x.Violation("C05/replan/first-plan-failed", fmt.Sprintf("%v %s", perr, panicked))
+		return
+	}
+	nc := *cfg
+	nc.KeyAlgorithm = cert.KeyAlgorithm(0)
+	for i, n := range refx509.KeyAlgNames {
+		if n == c.Second {
+			nc.KeyAlgorithm = cert.KeyAlgorithm(i)
+		}
+	}
+	nc.SignatureAlgorithm = sigIdx(refcfg.DefaultSigAlg(c.Second))
+	if err := fsdb.PutConfig("ent", nc); err != nil {
+		x.Violation("C05/replan/put-config-failed", err.Error())
+		return
+	}
+	var n int
+	guard(func() {
+		var plan db.ChangeList
+		plan, perr = db.PlanBulkUpdate(fsdb, db.UpdateMissing)
+		if perr == nil {
+			n, perr = db.BulkUpdate(fsdb, plan)
+		}
+	})
+	x.Transition(2)
+	if panicked != "" || perr != nil || n != 1 {
+		x.Violation("C05/replan/second-plan-failed", fmt.Sprintf("generated %d: %v %s", n, perr, panicked))
+		return
+	}
+	check(2, c.Second, refcfg.DefaultSigAlg(c.Second))
+	x.Outcome("replanned")
+}
+
 func c05Exec(x *engine.Ctx, cc any) {
 	c := cc.(*c05Case)
 	if c.Role == "rekey" {
@@ -196,6 +339,10 @@ func c05Exec(x *engine.Ctx, cc any) {
 	}
 	if c.Role == "resign" {
 		c05Resign(x, c)
+		return
+	}
+	if c.Role == "reconfig" || c.Role == "replan" {
+		c05Reconfig(x, c)
 		return
 	}
 	d := &Dir{}
@@ -288,7 +435,7 @@ func init() {
 	register(&engine.Check{
 		ID:          "C05",
 		Level:       "exploration",
-		Rule:        "15 keyAlgorithm values (14 names + omitted) x 9 signatureAlgorithm values (8 + omitted) for self-signed roots and for subordinates under an issuer of each of the 14 key types (issuer key from fixtures); gopki generates the entity's key except for the slow RSA sizes where a fixture key is imported (RSA-4096 generated once per role in quick, RSA-8192 only in thorough). Oracle: PKCS#8 block decodes to exactly that modulus length / curve, SPKI names it and carries the private key's public key, signature algorithm OID = configured or SHA-256 with the entity's own key family. non-trivial = distinct fitting combination that produced a certificate; through the generator API one certificate body signed twice (every ordered pair of the 8 signature algorithms on a P-256, a brainpoolP384r1 and an RSA-2048 key, a first attempt with an algorithm of the other family failing): every certificate names, inside and outside, the algorithm it was asked for and verifies; one certificate context keyed twice through the cert package (30 ordered pairs over six key types): the SubjectPublicKeyInfo describes the key the certificate carries",
+		Rule:        "15 keyAlgorithm values (14 names + omitted) x 9 signatureAlgorithm values (8 + omitted) for self-signed roots and for subordinates under an issuer of each of the 14 key types (issuer key from fixtures); gopki generates the entity's key except for the slow RSA sizes where a fixture key is imported (RSA-4096 generated once per role in quick, RSA-8192 only in thorough). Oracle: PKCS#8 block decodes to exactly that modulus length / curve, SPKI names it and carries the private key's public key, signature algorithm OID = configured or SHA-256 with the entity's own key family. non-trivial = distinct fitting combination that produced a certificate; through the generator API one certificate body signed twice (every ordered pair of the 8 signature algorithms on a P-256, a brainpoolP384r1 and an RSA-2048 key, a first attempt with an algorithm of the other family failing): every certificate names, inside and outside, the algorithm it was asked for and verifies; one certificate context keyed twice through the cert package (30 ordered pairs over six key types): the SubjectPublicKeyInfo describes the key the certificate carries; through the library with one database object: an entity that names a profile is signed, configured again with another signature algorithm of its family and signed with overwrite (all ordered pairs on an EC and an RSA key), and an entity is planned, configured again with another key algorithm (all ordered pairs over six) and then planned and generated - certificate and key are those of the configuration in force",
 		Bound:       map[string]string{"grid": "15 x 9 x (1 + 14 issuers)"},
 		Assumptions: []string{"combinations whose signature algorithm does not fit the signing key must fail (C01) and are only counted here"},
 		Budget:      budgets(quickBudget, thoroughBudget),
